@@ -226,8 +226,9 @@ impl Request {
     ) -> Result<Option<()>, crate::Response> {
         use crate::Response;
 
-        match stream.read(&mut *self.__buf__).await {
+        let received = match stream.read(&mut *self.__buf__).await {
             Ok (0) => return Ok(None),
+            Ok (n) => n,
             Err(e) => return match e.kind() {
                 std::io::ErrorKind::ConnectionReset => Ok(None),
                 _ => Err((|err| {
@@ -235,15 +236,17 @@ impl Request {
                     Response::InternalServerError()
                 })(e))
             },
-            _ => ()
-        }
+        };
 
         let mut r = Reader::new(unsafe {
             // pass detouched bytes
             // to resolve immutable/mutable borrowing
             // 
             // SAFETY: `self.__buf__` itself is immutable
-            Slice::from_bytes(&*self.__buf__).as_bytes()
+            //
+            // only the bytes actually received: what lies behind them is
+            // padding or a previous request, and a received byte may be 0
+            Slice::from_bytes(&self.__buf__[..received]).as_bytes()
         });
 
         match Method::from_bytes(r.read_while(|b| b != &b' ')) {
@@ -308,8 +311,8 @@ impl Request {
     ) -> std::io::Result<CowSlice> {
         let remaining_buf_len = remaining_buf.len();
 
-        if remaining_buf_len == 0 || *unsafe {remaining_buf.get_unchecked(0)} == 0 {
-            #[cfg(feature="DEBUG")] println!("\n[read_payload] case: remaining_buf.is_empty() || remaining_buf[0] == 0\n");
+        if remaining_buf_len == 0 {
+            #[cfg(feature="DEBUG")] println!("\n[read_payload] case: remaining_buf.is_empty()\n");
 
             let mut bytes = vec![0; size].into_boxed_slice();
             stream.read_exact(&mut bytes).await?;
